@@ -116,10 +116,10 @@ func unquoteString(b []byte) ([]byte, int) {
 		if i >= len(b) {
 			return b, len(b)
 		}
-		if b[i] == '\r' || b[i] == '\n' {
-			return b[0:i], i
-		}
-		if b[i] == '"' {
+		if b[i] == '\r' || b[i] == '\n' || b[i] == '"' {
+			if i == 0 { // nothing was read, a custom reader must return nil then
+				return nil, 0
+			}
 			return b[0:i], i
 		} else if b[i] == '\\' || b[i] >= utf8.RuneSelf {
 			break
@@ -134,15 +134,25 @@ func unquoteString(b []byte) ([]byte, int) {
 	var err error
 	var ch rune
 	for {
-		if str == "" {
+		// a raw line break ends the string here as well
+		if str == "" || str[0] == '\r' || str[0] == '\n' {
 			break
 		}
 		ch, _, tail, err = strconv.UnquoteChar(str, '"')
 		if err != nil {
 			break
 		}
-		res = append(res, string(ch)...)
+		if ch == utf8.RuneError && len(str)-len(tail) == 1 {
+			// keep an invalid UTF-8 byte as it is, the replacement character
+			// would be longer than what was read
+			res = append(res, str[0])
+		} else {
+			res = append(res, string(ch)...)
+		}
 		str = tail
+	}
+	if len(str) == len(b) { // nothing was read, a custom reader must return nil then
+		return nil, 0
 	}
 	return res, len(b) - len(str)
 }
